@@ -38,6 +38,11 @@ def scope(model, family: str, schema_id: str, size: int, **over) -> dict:
             "texts": ["a", "bc"],
             "attrs": {"heading": [{"level": 1}]},
         }
+    elif family == "long":  # three characters: positions strictly inside a text node, not next to its ends
+        s = {
+            "types": ["doc", "paragraph", "blockquote", "text"],
+            "texts": ["a", "bcd"],
+        }
     elif family == "inline":
         s = {
             "types": ["doc", "paragraph", "text", "hard_break", "image"],
@@ -216,8 +221,8 @@ def scope(model, family: str, schema_id: str, size: int, **over) -> dict:
 
 def families_for(schema_id: str) -> list[str]:
     return {
-        "basic": ["blocks", "blocks2", "inline", "inline_s", "astral", "links"],
-        "list": ["blocks", "blocks2", "inline", "inline_s", "lists", "lists_q", "astral"],
+        "basic": ["blocks", "blocks2", "long", "inline", "inline_s", "astral", "links"],
+        "list": ["blocks", "blocks2", "long", "inline", "inline_s", "lists", "lists_q", "astral"],
         "strict_hb": ["strict"],
         "title": ["title"],
         "fixed": ["fixed"],
